@@ -136,31 +136,295 @@ def _spec_param_of(callee: ast.AST) -> Optional[str]:
     return pos[0] if pos else None
 
 
-def _trace_tainted(fn: ast.FunctionDef) -> Set[str]:
-    """Locals whose value is derived from the trace parameter (nullness-propagating forms only); plain and
-    annotated assignments."""
-    tainted = {_orch.trace_param(fn)}
-    changed = True
-    while changed:
-        changed = False
+NONNULL_BUILTINS = {"str", "repr", "int", "float", "bool", "dict", "list", "tuple", "set", "frozenset", "sorted", "len", "hex", "format", "bytes"}
+
+
+def _is_none(e: ast.AST) -> bool:
+    return isinstance(e, ast.Constant) and e.value is None
+
+
+def _none_test(e: ast.AST) -> Optional[Tuple[ast.AST, bool]]:
+    """(subject, True) for ``subject is not None`` / ``subject != None`` / ``None is not subject``; (subject, False)
+    for the ``is`` / ``==`` forms."""
+    if isinstance(e, ast.Compare) and len(e.ops) == 1:
+        a, b, op = e.left, e.comparators[0], e.ops[0]
+        if _is_none(b) or _is_none(a):
+            subject = a if _is_none(b) else b
+            if isinstance(op, (ast.IsNot, ast.NotEq)):
+                return subject, True
+            if isinstance(op, (ast.Is, ast.Eq)):
+                return subject, False
+    return None
+
+
+def _three_valued(e: ast.AST, truth_of_leaf, nonnull_of) -> Optional[bool]:
+    """Truth value of a boolean combination (not / and / or / conditional expression / None tests) of leaves."""
+    def ev(x: ast.AST) -> Optional[bool]:
+        if isinstance(x, ast.Constant):
+            return bool(x.value)
+        if isinstance(x, ast.UnaryOp) and isinstance(x.op, ast.Not):
+            v = ev(x.operand)
+            return None if v is None else (not v)
+        if isinstance(x, ast.BoolOp):
+            vals = [ev(v) for v in x.values]
+            if isinstance(x.op, ast.And):
+                if any(v is False for v in vals):
+                    return False
+                return True if all(v is True for v in vals) else None
+            if any(v is True for v in vals):
+                return True
+            return False if all(v is False for v in vals) else None
+        if isinstance(x, ast.IfExp):
+            t = ev(x.test)
+            if t is True:
+                return ev(x.body)
+            if t is False:
+                return ev(x.orelse)
+            a, b = ev(x.body), ev(x.orelse)
+            return a if a == b else None
+        if isinstance(x, ast.NamedExpr):
+            return ev(x.value)
+        nt = _none_test(x)
+        if nt is not None:
+            nn = nonnull_of(nt[0])
+            return None if nn is None else (nn if nt[1] else not nn)
+        return truth_of_leaf(x)
+
+    return ev(e)
+
+
+def _make_fold(truth: Dict[str, bool]):
+    """Fold tests over the locals whose truth value in a *traced run* is known (see _Scenario)."""
+    def leaf(x: ast.AST) -> Optional[bool]:
+        return truth.get(x.id) if isinstance(x, ast.Name) else None
+
+    def nonnull(x: ast.AST) -> Optional[bool]:
+        # a truthy value is not None; a falsy one may be None, "", 0 ...
+        return True if isinstance(x, ast.Name) and truth.get(x.id) is True else None
+
+    return lambda e: _three_valued(e, leaf, nonnull)
+
+
+class _Scenario:
+    """The *traced run* scenario: the trace parameter of execute() holds a driver.  Decides, for every local derived
+    from it, whether the local is truthy or falsy in that scenario - by evaluating the values that reach the uses of
+    the local (reaching definitions on the CFG folded with what is known so far), with polarity: `not (trace is None
+    or run_id is None)` is true, `trace is None` is false.  A test of *another* local against None (`run_id is not
+    None`) is decided by the definitions of that local that reach the test in the scenario: all of them must bind a
+    value that cannot be None (text built in place, a container, a constructor, a repo function whose returns are
+    such values)."""
+
+    def __init__(self, repo: Repo, fn: ast.FunctionDef):
+        self.repo, self.fn = repo, fn
+        self.mod = repo.module(ORCH)
+        self.trace = _orch.trace_param(fn)
+        self.truth: Dict[str, bool] = {self.trace: True}
+        self._nn_fn: Dict[int, Optional[bool]] = {}
+        loads: Dict[str, List[ast.AST]] = {}
         for n in walk_no_nested(fn):
-            tgt = None
-            if isinstance(n, ast.Assign) and len(n.targets) == 1 and isinstance(n.targets[0], ast.Name):
-                tgt = n.targets[0].id
-            elif isinstance(n, ast.AnnAssign) and isinstance(n.target, ast.Name) and n.value is not None:
-                tgt = n.target.id
-            if tgt is None or tgt in tainted:
-                continue
-            v = n.value
-            names = {x.id for x in ast.walk(v) if isinstance(x, ast.Name)}
-            if not names & tainted:
-                continue
-            ok = isinstance(v, (ast.BoolOp, ast.Compare, ast.Name)) or (isinstance(v, ast.Call) and call_attr(v) == "cast") or (
-                isinstance(v, ast.IfExp) and {x.id for x in ast.walk(v.test) if isinstance(x, ast.Name)} <= tainted)
-            if ok:
-                tainted.add(tgt)
-                changed = True
-    return tainted
+            if isinstance(n, ast.Name) and isinstance(n.ctx, ast.Load):
+                loads.setdefault(n.id, []).append(n)
+        params = _param_names(fn)
+        # candidates: locals bound (anywhere) to an expression that reads the trace parameter or another candidate
+        derived: Set[str] = {self.trace}
+        changed = True
+        while changed:
+            changed = False
+            for n in walk_no_nested(fn):
+                if isinstance(n, (ast.Assign, ast.AnnAssign, ast.NamedExpr)) and n.value is not None:
+                    if any(isinstance(x, ast.Name) and x.id in derived for x in ast.walk(n.value)):
+                        new_names = _node_binds(n) - derived
+                        if new_names:
+                            derived |= new_names
+                            changed = True
+        for _round in range(6):
+            fold = _make_fold(self.truth)
+            g = CFG(fn, fold=fold, may_raise=_orch.full_may_raise(set(), {"Payload"}))
+            V = _Vals(g, fn, fold)
+            self.V = V
+            new: Dict[str, bool] = {self.trace: True}
+            for name in sorted(V.locals - params):
+                uses: Set[int] = set()
+                for ld in loads.get(name, ()):
+                    uses.update(g.nodes_for(stmt_of(ld)) or ())
+                if not uses:
+                    continue
+                if name not in derived:
+                    continue
+                alts = V.resolve(ast.Name(id=name, ctx=ast.Load()), sorted(uses))
+                vals = {self.truth_of(a) for a in alts}
+                if len(vals) == 1 and None not in vals:
+                    new[name] = vals.pop()
+            if new == self.truth:
+                break
+            self.truth = new
+        self.fold = _make_fold(self.truth)
+
+    # -- evaluation of resolved expressions (names are `x@param`, `x@<node>` tags or free names) -------------
+    def truth_of(self, e: ast.AST) -> Optional[bool]:
+        def leaf(x: ast.AST) -> Optional[bool]:
+            if isinstance(x, ast.Name):
+                return True if x.id in (self.trace, f"{self.trace}@param") else None
+            if isinstance(x, ast.Call) and call_attr(x) == "cast" and len(x.args) == 2 and not x.keywords:
+                return self.truth_of(x.args[1])
+            if isinstance(x, ast.JoinedStr):
+                return True if any(isinstance(v, ast.Constant) and v.value for v in x.values) else None
+            return None
+        return _three_valued(e, leaf, self.nonnull)
+
+    def nonnull(self, e: ast.AST, depth: int = 0) -> Optional[bool]:
+        """True: cannot be None in a traced run; False: is None; None: unknown."""
+        if depth > 6:
+            return None
+        if isinstance(e, ast.Constant):
+            return e.value is not None
+        if isinstance(e, ast.Name):
+            if e.id in (self.trace, f"{self.trace}@param"):
+                return True
+            info = self.V.info.get(e.id)
+            if info is not None and info[1] == "value" and info[2] is not None:
+                outs = {self.nonnull(a, depth + 1) for a in self.V.resolve(info[2], [info[0].id])}
+                return outs.pop() if len(outs) == 1 else None
+            return None
+        if isinstance(e, (ast.JoinedStr, ast.Dict, ast.List, ast.Tuple, ast.Set, ast.ListComp, ast.SetComp, ast.DictComp, ast.GeneratorExp, ast.Lambda, ast.Compare)):
+            return True
+        if isinstance(e, ast.UnaryOp) and isinstance(e.op, ast.Not):
+            return True
+        if isinstance(e, ast.BinOp) and isinstance(e.op, (ast.Add, ast.Mod)):
+            text = lambda x: isinstance(x, ast.JoinedStr) or (isinstance(x, ast.Constant) and isinstance(x.value, str))
+            return True if text(e.left) or (isinstance(e.op, ast.Add) and text(e.right)) else None
+        if isinstance(e, ast.IfExp):
+            t = self.truth_of(e.test)
+            if t is not None:
+                return self.nonnull(e.body if t else e.orelse, depth + 1)
+            a, b = self.nonnull(e.body, depth + 1), self.nonnull(e.orelse, depth + 1)
+            return a if a == b else None
+        if isinstance(e, ast.BoolOp):
+            if isinstance(e.op, ast.Or):
+                # an earlier operand is the result only when it is truthy (hence not None)
+                return True if self.nonnull(e.values[-1], depth + 1) is True else None
+            return True if all(self.nonnull(v, depth + 1) is True for v in e.values) else None
+        if isinstance(e, ast.NamedExpr):
+            return self.nonnull(e.value, depth + 1)
+        if isinstance(e, ast.Call):
+            if call_attr(e) == "cast" and len(e.args) == 2 and not e.keywords:
+                return self.nonnull(e.args[1], depth + 1)
+            if isinstance(e.func, ast.Name) and e.func.id in NONNULL_BUILTINS and e.func.id not in self.V.locals and e.func.id not in self.mod.defs:
+                return True
+            return self._call_nonnull(self.mod, e, depth)
+        return None
+
+    def _call_nonnull(self, mod, call: ast.Call, depth: int) -> Optional[bool]:
+        try:
+            targets = self.repo.resolve_call(mod, call)
+        except Exception:
+            return None
+        if not targets:
+            return None
+        for m_, t in targets:
+            if isinstance(t, ast.FunctionDef) and t.name == "__init__":
+                continue  # a constructor call yields an instance
+            if not isinstance(t, ast.FunctionDef) or _is_abstract(t):
+                return None
+            if self._returns_nonnull(m_, t, depth) is not True:
+                return None
+        return True
+
+    def _returns_nonnull(self, mod, fn: ast.FunctionDef, depth: int) -> Optional[bool]:
+        key = id(fn)
+        if key in self._nn_fn:
+            return self._nn_fn[key]
+        self._nn_fn[key] = None
+        ok: Optional[bool] = True
+        if any(isinstance(n, (ast.Yield, ast.YieldFrom)) for n in walk_no_nested(fn)):
+            self._nn_fn[key] = True   # a generator object
+            return True
+        rets = [r for r in walk_no_nested(fn) if isinstance(r, ast.Return)]
+        g = CFG(fn)
+        if not rets or any(r.value is None for r in rets):
+            ok = None
+        else:
+            # falling off the end returns None: the last statement of the body must not complete normally
+            last = fn.body[-1]
+            if not isinstance(last, (ast.Return, ast.Raise)):
+                try:
+                    seen = g.reach([g.entry], blocked={n.id for n in g.nodes if n.kind == "stmt" and isinstance(n.ast, (ast.Return, ast.Raise))})
+                    if g.ret_exit in seen:
+                        ok = None
+                except Exception:
+                    ok = None
+        if ok:
+            locs = _local_names(fn) | _param_names(fn)
+            for r in rets:
+                if not self._shape_nonnull(mod, fn, r.value, locs, depth + 1):
+                    ok = None
+                    break
+        self._nn_fn[key] = ok
+        return ok
+
+    def _shape_nonnull(self, mod, fn: ast.FunctionDef, e: ast.AST, locs: Set[str], depth: int) -> bool:
+        """Inside a callee: the returned expression cannot be None by its shape (locals: every assignment binds such a
+        shape)."""
+        if depth > 6:
+            return False
+        if isinstance(e, ast.Constant):
+            return e.value is not None
+        if isinstance(e, (ast.JoinedStr, ast.Dict, ast.List, ast.Tuple, ast.Set, ast.ListComp, ast.SetComp, ast.DictComp, ast.GeneratorExp, ast.Lambda, ast.Compare)):
+            return True
+        if isinstance(e, ast.UnaryOp) and isinstance(e.op, ast.Not):
+            return True
+        if isinstance(e, ast.BinOp) and isinstance(e.op, (ast.Add, ast.Mod)):
+            text = lambda x: isinstance(x, ast.JoinedStr) or (isinstance(x, ast.Constant) and isinstance(x.value, str))
+            return bool(text(e.left) or (isinstance(e.op, ast.Add) and text(e.right)))
+        if isinstance(e, ast.IfExp):
+            return self._shape_nonnull(mod, fn, e.body, locs, depth + 1) and self._shape_nonnull(mod, fn, e.orelse, locs, depth + 1)
+        if isinstance(e, ast.BoolOp):
+            if isinstance(e.op, ast.Or):
+                return self._shape_nonnull(mod, fn, e.values[-1], locs, depth + 1)
+            return all(self._shape_nonnull(mod, fn, v, locs, depth + 1) for v in e.values)
+        if isinstance(e, ast.NamedExpr):
+            return self._shape_nonnull(mod, fn, e.value, locs, depth + 1)
+        if isinstance(e, ast.Name):
+            if e.id in _param_names(fn):
+                return False
+            binds = [n for n in walk_no_nested(fn) if isinstance(n, (ast.Assign, ast.AnnAssign, ast.AugAssign, ast.For, ast.With, ast.NamedExpr, ast.ExceptHandler, ast.Delete))
+                     and e.id in _node_binds(n)]
+            if not binds or not all(isinstance(b, (ast.Assign, ast.AnnAssign)) and b.value is not None and all(isinstance(t, ast.Name) for t in (b.targets if isinstance(b, ast.Assign) else [b.target])) for b in binds):
+                return False
+            return all(self._shape_nonnull(mod, fn, b.value, locs, depth + 1) for b in binds)
+        if isinstance(e, ast.Call):
+            if call_attr(e) == "cast" and len(e.args) == 2 and not e.keywords:
+                return self._shape_nonnull(mod, fn, e.args[1], locs, depth + 1)
+            if isinstance(e.func, ast.Name) and e.func.id in NONNULL_BUILTINS and e.func.id not in locs and e.func.id not in mod.defs:
+                return True
+            if isinstance(e.func, ast.Attribute) and e.func.attr in ("hexdigest", "format", "join", "strip", "lower", "upper", "encode", "decode", "replace", "copy", "keys", "values", "items") and not self.repo.resolve_call_by_name(e):
+                # str / hash-object / mapping methods that return a fresh value (no function of the package has that name)
+                return True
+            return self._call_nonnull(mod, e, depth) is True
+        return False
+
+
+def _node_binds(n: ast.AST) -> Set[str]:
+    out: Set[str] = set()
+    if isinstance(n, ast.Assign):
+        tgts = n.targets
+    elif isinstance(n, (ast.AnnAssign, ast.AugAssign, ast.NamedExpr)):
+        tgts = [n.target]
+    elif isinstance(n, ast.For):
+        tgts = [n.target]
+    elif isinstance(n, ast.With):
+        tgts = [i.optional_vars for i in n.items if i.optional_vars is not None]
+    elif isinstance(n, ast.ExceptHandler):
+        return {n.name} if n.name else set()
+    elif isinstance(n, ast.Delete):
+        tgts = n.targets
+    else:
+        tgts = []
+    for t in tgts:
+        for x in ast.walk(t):
+            if isinstance(x, ast.Name):
+                out.add(x.id)
+    return out
 
 
 def _driver_vars(fn: ast.FunctionDef, tainted: Set[str]) -> Set[str]:
@@ -515,11 +779,12 @@ class _Exec:
 
     def __init__(self, repo: Repo):
         self.fn = _execute_normal_form(repo)
-        self.tainted = _trace_tainted(self.fn)
+        self.scenario = _Scenario(repo, self.fn)
+        self.tainted = {n for n, v in self.scenario.truth.items() if v}
         self.drivers = _driver_vars(self.fn, self.tainted)
         if not self.drivers:
             raise AnalysisError("execute(): no trace driver calls found")
-        self.fold = _orch.make_fold(self.tainted)
+        self.fold = self.scenario.fold
         self.g = CFG(self.fn, fold=self.fold, may_raise=_orch.full_may_raise(self.drivers, {"Payload"}))
         self.V = _Vals(self.g, self.fn, self.fold)
 
@@ -1881,6 +2146,24 @@ def _record_literal(repo: Repo, qn: str) -> Tuple[Optional[str], Optional[ast.Di
     return None, None, nf
 
 
+def _only_in_type_error_fallback(g: CFG, site: ast.AST) -> bool:
+    """Every path from the entry of the function to the statement of *site* enters a handler that catches TypeError
+    (`except TypeError`, `except (TypeError, ..)`): the statement runs only after something raised TypeError."""
+    def catches_type_error(h: ast.ExceptHandler) -> bool:
+        t = h.type
+        elts = t.elts if isinstance(t, ast.Tuple) else [t] if t is not None else []
+        return any((dotted_name(x) or "").split(".")[-1] == "TypeError" for x in elts)
+
+    ids = g.nodes_for(stmt_of(site))
+    if not ids:
+        return True     # not reachable at all
+    gates = {n.id for n in g.nodes if n.kind == "except" and isinstance(n.ast, ast.ExceptHandler) and catches_type_error(n.ast)}
+    if not gates:
+        return False
+    seen = g.reach([g.entry], blocked=gates)
+    return not any(i in seen for i in ids if i not in gates)
+
+
 def _schema_rules(repo: Repo, R: Report, X: Optional["_Exec"] = None) -> None:
     X = X or _exec(repo)
     V = X.V
@@ -1917,23 +2200,31 @@ def _schema_rules(repo: Repo, R: Report, X: Optional["_Exec"] = None) -> None:
             if "const" in spec and k in keys:
                 v = keys[k]
                 R.check(isinstance(v, ast.Constant) and v.value == spec["const"], r, JSONL, qn, f"{rtype}: {k} == {spec['const']!r}", f"record constant {k} differs from the schema's const", f.lineno)
-        # required keys never removed again
+        # required keys never removed again: `rec.pop(k[, d])`, `rec.__delitem__(k)`, `del rec[k]` (however guarded) are
+        # one construct - a removal of k.  A removal that can only be reached through a handler of TypeError (the
+        # fallback of a failed json.dumps) is discharged by D2b (the fallback is unreachable); any other is reported.
+        removals: List[Tuple[ast.AST, object]] = []
         for c in calls_in(f):
             if call_attr(c) in ("pop", "__delitem__") and isinstance(c.func, ast.Attribute) and rec is not None and dotted_name(c.func.value) == rec and c.args and isinstance(c.args[0], ast.Constant):
-                k = c.args[0].value
-                if k in req:
-                    in_type_error_fallback = any(isinstance(a, ast.ExceptHandler) and "TypeError" in ast.unparse(a.type or ast.Constant(value="")) for a in ancestors(c))
-                    if in_type_error_fallback:
-                        fallback_pops.append((qn, c, k))
-                    else:
-                        R.violation(r, JSONL, qn, norm(c), f"schema-required key {k!r} is dropped unconditionally: the written line is rejected by the schema", c.lineno)
-                else:
-                    R.ok(r, JSONL, qn, norm(c), "optional key", c.lineno)
+                removals.append((c, c.args[0].value))
         for n in walk_no_nested(f):
             if isinstance(n, ast.Delete):
                 for t in n.targets:
-                    if isinstance(t, ast.Subscript) and rec is not None and dotted_name(t.value) == rec and isinstance(t.slice, ast.Constant) and t.slice.value in req:
-                        R.violation(r, JSONL, qn, norm(n), f"schema-required key {t.slice.value!r} is deleted", n.lineno)
+                    if isinstance(t, ast.Subscript) and rec is not None and dotted_name(t.value) == rec and isinstance(t.slice, ast.Constant):
+                        removals.append((n, t.slice.value))
+        gf = None
+        for c, k in removals:
+            if k not in req:
+                R.ok(r, JSONL, qn, norm(c), "optional key", c.lineno)
+                continue
+            if gf is None:
+                gf = CFG(f)
+            if _only_in_type_error_fallback(gf, c):
+                fallback_pops.append((qn, c, k))
+            elif isinstance(c, ast.Delete):
+                R.violation(r, JSONL, qn, norm(c), f"schema-required key {k!r} is deleted", c.lineno)
+            else:
+                R.violation(r, JSONL, qn, norm(c), f"schema-required key {k!r} is dropped unconditionally: the written line is rejected by the schema", c.lineno)
         # early return before the write (record silently not written)
         if rtype in ("pipeline_start",):
             pass
@@ -3585,7 +3876,7 @@ class _ClosingClosure:
         self.repo = repo
         self.omod = repo.module(ORCH)
         self.raw = repo.func(ORCH, EXECUTE)
-        self.drivers = _orch.trace_tainted(self.raw)
+        self.drivers = set(_exec(repo).tainted) | _orch.trace_tainted(self.raw)
         self.info: Dict[int, Tuple[object, ast.AST, Tuple[str, ...], List[ast.Call]]] = {}
         self.taint: Dict[int, Tuple[Set[str], Set[str]]] = {}
         payloads = {a.arg for a in self.raw.args.posonlyargs + self.raw.args.args + self.raw.args.kwonlyargs
